@@ -276,7 +276,7 @@ Proof. intros HI Hx Hb. destruct (Inv_alloc _ _ _ _ HI Hx Hb) as (H1 & _ & H3 & 
     sv_values : forall v o, values m !! v = Some (Some o) ->
                 (exists x, get m o = Some x /\ o_box x = BFreed /\ o_vst x = VMoved) /\
                 (forall v', values m !! v' = Some (Some o) -> v' = v);
-    sv_lens : length (slots m) = nslots /\ length (wslots m) = nslots;
+    sv_lens : length (slots m) = nslots /\ length (wslots m) = nslots /\ length (cslots m) = nslots;
     (* Weak handles of the program never point to a CleanerMap *)
     sv_wslots : forall i w, wslots m !! i = Some w -> wnomap m w;
     sv_wparam : forall w, w ∈ wparam m -> wnomap m (Some w);
